@@ -99,9 +99,14 @@ int rstr_find(struct rstr *rs, char *s, int n, int *grps, int flg)
 		if (rs->wend && r[len] && (r + len == s || !isword(r + len - 1) || isword(r + len)))
 			continue;
 		if (!match_case(r, rs->str, rs->icase)) {
+			int i;
 			if (n >= 1) {
 				grps[0] = r - s;
 				grps[1] = r - s + len;
+			}
+			for (i = 1; i < n; i++) {
+				grps[i * 2] = -1;
+				grps[i * 2 + 1] = -1;
 			}
 			return 0;
 		}
